@@ -96,9 +96,13 @@ C04Exact(g, orc, p, rs) ==
                                              /\ ClearlyWorse(kind, ToFix(vals[j]), optf, guardOf(j))}
                 listed == SeqSet(rs[s].acts)
                 missed == {j \in must : row[j].a \notin listed}
-                \* K1: the solver's own numbers separate the tie, every listed
-                \* action is truly optimal, at least one is listed
+                \* K1: the solver's own numbers separate the tie BECAUSE OF THE STOPPING
+                \* ERROR of the iteration (one of the two reported values is off its exact
+                \* value by more than floating-point noise), every listed action is truly
+                \* optimal, at least one is listed
+                offBy(t) == ~FixNear(Fx(p[t]), orc.rvf[t], 2)
                 sepByOwn(j) == \E m \in must : row[m].a \in listed /\
+                                   (offBy(row[j].t) \/ offBy(row[m].t)) /\
                                    IF kind = P1 THEN FixLt(Fx(p[row[j].t]), Fx(p[row[m].t]))
                                    ELSE FixLt(Fx(p[row[m].t]), Fx(p[row[j].t]))
                 listedOpt == \A j \in DOMAIN row : row[j].a \in listed => j \in must
